@@ -58,6 +58,9 @@ def run_property(pid, tier, seed, write_baseline=False):
         if not caught:
             lines.append(f'CHECKER-FAULT canary {name} was not caught')
             exit_code = 3
+    for mm in (res.conformance or {}).get('mismatches', []):
+        lines.append(f'CHECKER-FAULT encoding conformance: {mm.get("contract")} {str(mm.get("what"))[:200]} args={str(mm.get("args"))[:200]}')
+        exit_code = 3
     proved = [o for o in res.obligations if o.kind in PROVED_KINDS]
     if not proved:
         lines.append('CHECKER-FAULT zero obligations generated')
